@@ -24,6 +24,11 @@ static std::string body_result(gr_face *face, gr_font *font, const std::string &
     SegDumpOpts o; o.face = face; o.font = font; std::string d = dump_segment(s, o);
     if (gr_face_n_fref(face)) { uint16_t l = 0x409; uint32_t n = 0; void *lab = gr_fref_label(gr_face_fref(face, 0), &l, gr_utf8, &n); appf(d, "label %u %s\n", n, lab ? (const char*)lab : "(null)"); if (lab) gr_label_destroy(lab); }
     appf(d, "sup %d\n", gr_face_is_char_supported(face, 0x61, 0));
+    // more of the read-only API surface: value label in another encoding, lookup by id, face info, a font of the thread's own on the shared face, justification of the thread's own segment
+    if (gr_face_n_fref(face)) { const gr_feature_ref *fr = gr_face_fref(face, 0); uint16_t l = 0x409; uint32_t n = 0; void *lab = gr_fref_n_values(fr) ? gr_fref_value_label(fr, 0, &l, gr_utf16, &n) : nullptr; appf(d, "vlabel %u\n", n); if (lab) gr_label_destroy(lab);
+        appf(d, "find %d\n", gr_face_find_fref(face, gr_fref_id(fr)) == fr); }
+    { const gr_faceinfo *fi = gr_face_info(face, 0); appf(d, "info %u %u\n", fi ? fi->extra_ascent : 0u, fi ? unsigned(fi->has_bidi_pass) : 0u); }
+    { gr_font *own = gr_make_font(9.5f, face); if (own) { gr_segment *s2 = gr_make_seg(own, face, 0, nullptr, gr_utf8, tx.c_str(), utf8_count(tx), dir); if (s2) { float w = gr_seg_justify(s2, gr_seg_first_slot(s2), own, gr_seg_advance_X(s2) * 1.2f, gr_justCompleteLine, nullptr, nullptr); appf(d, "just %.3f\n", double(w)); SegDumpOpts o2; o2.face = face; o2.font = own; d += dump_segment(s2, o2); gr_seg_destroy(s2); } gr_font_destroy(own); } }
     if (s) gr_seg_destroy(s); gr_featureval_destroy(fv); return d;
 }
 static char g_ctrl_buf[8];     // mode 3: every thread asks the library to write a tag into this one buffer (a conflict by the API's own contract)
